@@ -508,6 +508,13 @@ def sweep_cases(tier):
                     continue
                 out.append({'sweep': sk, 'design': d, 'wall': wall,
                             'L': 0.06 if tier == 'quick' else 0.12})
+        for sk in ('multi', 'multi2', 'r2', 'lf-simple'):
+            for form in ('outer-first', 'ducts-reversed', 'descending'):
+                if form == 'ducts-reversed' and sk in ('multi', 'lf-simple'):
+                    continue       # one duct: nothing to reverse
+                for wall in (('flow',) if tier == 'quick' else ('none', 'flow')):
+                    out.append({'sweep': sk, 'design': d, 'wall': wall, 'ftf': form,
+                                'L': 0.06 if tier == 'quick' else 0.12})
     return out
 
 
@@ -521,8 +528,15 @@ def run_sweep(c):
     scn['types']['A']['duct_material'] = 'ss316'
     scn['power']['asm']['1']['fr'] = {'duct': 0.25}
     dsn = scn['types']['A']
-    ftf = dsn['duct_ftf']
+    ftf = sorted(dsn['duct_ftf'])
     dftf_all = [ftf[i:i + 2] for i in range(0, len(ftf), 2)]
+    # the flat-to-flat values may be listed in any order (the regions sort them)
+    if c.get('ftf') == 'outer-first':          # within every duct: outer value first
+        dsn['duct_ftf'] = [ftf[i + 1 - 2 * (i % 2)] for i in range(len(ftf))]
+    elif c.get('ftf') == 'ducts-reversed':     # outermost duct listed first
+        dsn['duct_ftf'] = [x for d in reversed(dftf_all) for x in d]
+    elif c.get('ftf') == 'descending':
+        dsn['duct_ftf'] = list(reversed(ftf))
     extra = {'sweep_states_by_kind': {}, 'sweep_heated_states': 0}
     worst = {}
     want_adi = (c['wall'] == 'none')
